@@ -133,7 +133,9 @@ func newBC() (*bcEnv, error) {
 	store := blockchain.NewBlockStore(dbm.NewMemDB(), nil)
 	arch := archive.NewArchive("memdb", dir, 0) // threshold_blocks default
 	e.bcR = blockchain.NewBlockchainReactor(conf, 0, store, true, arch)
-	e.bcR.SetBlockVerifier(func(id types.BlockID, h int64, c *types.Commit) error { return valSet.VerifyCommit(csim.ChainID, id, h, c) })
+	e.bcR.SetBlockVerifier(func(id types.BlockID, h int64, c *types.Commit) error {
+		return valSet.VerifyCommit(csim.ChainID, id, h, c)
+	})
 	e.bcR.SetBlockExecuter(func(b *types.Block, ps *types.PartSet, c *types.Commit) error {
 		e.executed = append(e.executed, b.Height)
 		store.SaveBlock(b, ps, c)
@@ -383,7 +385,9 @@ func runPEX(class string) (got, detail string, wedge error) {
 	sw.AddReactor("PEX", pexR)
 	peer, stop := standInPeer(map[byte]p2p.Reactor{p2p.PexChannel: pexR}, pexR.GetChannels())
 	defer stop()
-	addrs := func(l []*wireAddr) []byte { return append([]byte{0x02}, wire.BinaryBytes(struct{ Addrs []*wireAddr }{l})...) }
+	addrs := func(l []*wireAddr) []byte {
+		return append([]byte{0x02}, wire.BinaryBytes(struct{ Addrs []*wireAddr }{l})...)
+	}
 	good := &wireAddr{IP: net.IPv4(8, 8, 4, 4).To4(), Port: 46656}
 	var bz []byte
 	switch class {
